@@ -76,7 +76,9 @@ CLAIMED = {
     "C13": ("proof", "Decoder side complete and unbounded in Verus on verbatim bodies: HU2V (read_weights: direct and FSE-compressed descriptions, no panic, termination, "
             "bytes used <= source, direct weights = nibbles), HU1V (build_table_from_weights for EVERY weight vector: Kraft assert, rejection of weights > 11 and "
             "of tables deeper than 11 bits, table well-formed: 2^max_bits cells each with 1..=max_bits bits), L1 (stepping stays inside the table, every literal "
-            "consumes >= 1 bit, stream split / jump table arithmetic, exactly regenerated_size literals). Encoder side: HU4D (Verus, every alphabet size 2..=256): distribute_weights is "
+            "consumes >= 1 bit, stream split / jump table arithmetic, exactly regenerated_size literals). Encoder side: HU5 (Verus, every literal run of a block): encode4x splits the literals "
+            "into four consecutive runs covering them exactly once, the jump table holds the byte sizes of streams 1..3 at the three 16-bit fields in front of them, the "
+            "`size <= u16::MAX` asserts hold; HU4D (Verus, every alphabet size 2..=256): distribute_weights is "
             "total and Kraft-complete; the rest of HU4 (depth limiting, code assignment, description round trip) is NOT under contract; E8 covers the literals header "
             "widths and table hand-back.", "DESIGN.md 4 C13, Part II"),
     "C14": ("proof", "Finite, loop-free functions (code tables, repeat-offset machine, block/frame/literals/sequence headers) are "
